@@ -32,9 +32,13 @@
                                             stored dtype already is the (native) dtype asked for
   * nibabel/dataobj_images.py:225-357      `get_fdata(dtype)` cache (reused only for the same dtype), `uncache`
   * nibabel/filebasedimages.py `to_bytes`  serialises through `to_file_map(BytesIO map)` (rebinds `file_map`!)
-  * nibabel/volumeutils.py:392-402         `maps_file(arr)`: follows the `.base` chain — true for a `np.memmap` AND for a
-                                            base-class view of one (`np.asarray(memmap)`, `[::1]`, `.T.T`, …), the guard
-                                            of both `to_file_map` since fix ae98171b (before: `isinstance(data, np.memmap)`)
+  * nibabel/volumeutils.py:392-407         `maps_file(arr)`: follows the chain of OWNERS (`memoryview.obj`, else any
+                                            `.base` attribute) — true for a `np.memmap`/`mmap.mmap`, for a base-class view
+                                            of one (`np.asarray(memmap)`, `[::1]`, `.T.T`, …) and for arrays whose owner
+                                            chain passes through a memoryview or an array-interface holder
+                                            (`np.frombuffer(mmap)`, `np.asarray(memoryview(m))`, `as_strided(m)`,
+                                            `sliding_window_view(m)`): the guard of both `to_file_map` since fix 8d96c629
+                                            (ae98171b: ndarray `.base` links only; before: `isinstance(data, np.memmap)`)
   * nibabel/spatialimages.py:474-520       `SpatialImage.__init__(dataobj, affine, header)`: header COPIED
                                             (`from_header`), dtype/fields of the given header kept, `update_header()`,
                                             `file_map` fresh (no filename) — the re-wrap op `Klass(view, img.affine, img.header)`
@@ -188,19 +192,27 @@ inductive Cache where
   | alias (w : Bool)             -- the float memmap of the source file itself (`astype(copy=False)`)
   deriving Repr, DecidableEq, Inhabited
 
+/-- how an array that reads a memory map reaches it -/
+inductive VKind where
+  | inst      -- it IS an `np.memmap` instance
+  | plain     -- base-class ndarray whose chain of ndarray `.base` links ends in the np.memmap / mmap.mmap
+  | hidden    -- the map is reachable only through a `memoryview.obj` or an array-interface holder's `.base`
+              -- (`np.frombuffer(mmap)`, `np.asarray(memoryview(m))`, `as_strided(m)`, `sliding_window_view(m)`)
+  deriving Repr, DecidableEq, Inhabited
+
 /-- what `img.dataobj` is -/
 inductive Arr where
   | proxy                        -- the ArrayProxy of a loaded image
   | owned (d : Nat) (fl : Bool)  -- an ndarray that owns its memory (`fl`: floating dtype)
-  | view (inst : Bool)           -- an array reading the memmap of the source file (layout = the proxy spec below);
-                                 -- `inst`: it IS an `np.memmap` instance (else a base-class view of one)
+  | view (vk : VKind)            -- an array reading a memory map of the source file (layout = the proxy spec below)
   deriving Repr, DecidableEq, Inhabited
 
 /-- the copy-before-open guard of `to_file_map` -/
 inductive Guard where
   | none     -- pinned tree: no copy
   | inst     -- fae418e9 … ae98171b^: `isinstance(data, np.memmap)`
-  | base     -- current: `maps_file(data)` (follows `.base`)
+  | baseNd   -- ae98171b … 8d96c629^: `maps_file` following ndarray `.base` links only
+  | owners   -- current (8d96c629): `maps_file` following `memoryview.obj` and any `.base` attribute
   deriving Repr, DecidableEq, Inhabited
 
 /-- a lazily loaded image (or an array image re-wrapped from one): header state + data object + caches -/
@@ -228,8 +240,8 @@ def Img.hdrAff (im : Img) : Nat := im.xf.best
 /-- result of `np.asanyarray(self.dataobj)` -/
 inductive Mat where
   | copy (d : Nat)      -- fresh ndarray
-  | ref (p : Path) (dt : DT) (be : Bool) (scaled : Bool) (inst : Bool)
-        -- array backed by np.memmap on `p`, interpreting it with this layout; `inst`: an np.memmap instance
+  | ref (p : Path) (dt : DT) (be : Bool) (scaled : Bool) (vk : VKind)
+        -- array backed by a memory map of `p`, interpreting it with this layout; `vk`: how it reaches the map
   deriving Repr, DecidableEq, Inhabited
 
 /-- read `p` through a proxy / memmap built for layout (dt, byte order, scaled): `none` = SIGBUS / zeros /
@@ -247,11 +259,11 @@ def Img.mapped (im : Img) : Bool := im.mm && !im.src.compressed && !im.srcScaled
 def materialise (fs : FS) (im : Img) : Option Mat :=
   match im.arr with
   | .owned d _ => some (.copy d)
-  | .view inst => some (.ref im.src im.srcDt im.srcBe im.srcScaled inst)
+  | .view vk => some (.ref im.src im.srcDt im.srcBe im.srcScaled vk)
   | .proxy =>
     match readLayout fs im.src im.srcDt im.srcBe im.srcScaled with
     | none => none
-    | some d => if im.mapped then some (.ref im.src im.srcDt im.srcBe im.srcScaled true) else some (.copy d)
+    | some d => if im.mapped then some (.ref im.src im.srcDt im.srcBe im.srcScaled .inst) else some (.copy d)
 
 /-- touch the elements of a materialised array -/
 def deref (fs : FS) : Mat → Option Nat
@@ -306,15 +318,17 @@ structure St where
   fs : FS
   img : Option Img
 
-/-- does the guard `g` copy a file-backed array (`inst`: it is an np.memmap instance)? -/
-def Guard.copies (g : Guard) (inst : Bool) : Bool :=
+/-- does the guard `g` copy a file-backed array of kind `vk`? -/
+def Guard.copies (g : Guard) (vk : VKind) : Bool :=
   match g with
   | .none => false
-  | .inst => inst
-  | .base => true
+  | .inst => vk == .inst
+  | .baseNd => vk != .hidden
+  | .owners => true
 
 /-- `to_file_map` of the (converted) image onto `q` under copy guard `g` (`.none` = the pinned logic BEFORE the
-    first repair, `.inst` = instance check only, `.base` = current).  Returns outcome and the new file system. -/
+    first repair, `.inst` = instance check only, `.baseNd` = ndarray-base chain, `.owners` = current).  Returns
+    outcome and the new file system. -/
 def writeTo (orig : Guard) (fs : FS) (im : Img) (q : Path) : Out × FS :=
   -- data = np.asanyarray(self.dataobj)
   match materialise fs im with
@@ -323,7 +337,7 @@ def writeTo (orig : Guard) (fs : FS) (im : Img) (q : Path) : Out × FS :=
     -- if maps_file(data): data = np.array(data)     [the repair; maps_file = a np.memmap or a view of one]
     let m? : Option Mat :=
       match m with
-      | .ref _ _ _ _ inst => if orig.copies inst then (deref fs m).map Mat.copy else some m
+      | .ref _ _ _ _ vk => if orig.copies vk then (deref fs m).map Mat.copy else some m
       | .copy d => some (.copy d)
     match m? with
     | none => (.bad, fs)
@@ -396,7 +410,11 @@ inductive Wrap where
   | mapInst     -- `np.asanyarray(img.dataobj)`, `np.asanyarray(img.dataobj)[..., :]`  (np.memmap instances)
   | proxy       -- `img.dataobj` itself
   | copy        -- `np.array(img.dataobj)`
-  | fdata       -- `img.get_fdata()` (the memmap itself for a native float64 unscaled mapped file)
+  | fdata       -- `img.get_fdata()` (the mapped array itself for a native float64 unscaled mapped file)
+  | hiddenView  -- `as_strided(m)`, `np.asarray(memoryview(m))`, `sliding_window_view(m, (1,1,1))[..., 0, 0, 0]` of
+                -- `m = np.asanyarray(img.dataobj)`
+  | rawMap      -- `np.frombuffer(mmap.mmap(<the proxy's file>), dtype, count, offset)` for an uncompressed, unscaled
+                -- source (whatever the `mmap=` flag of the load); else as `hiddenView`
   deriving Repr, DecidableEq, Inhabited
 
 inductive Op where
@@ -440,14 +458,21 @@ def wrapArr (fs : FS) (im : Img) : Wrap → Option Img
       match getFdata fs im false with
       | none => none
       | some (d, im1) =>
-          some (rewrapped im (match im1.cache with | .alias false => .view true | _ => .owned d true))
+          some (rewrapped im (match im1.cache with
+            | .alias false => .view (match im.arr with | .view vk => vk | _ => .inst)
+            | _ => .owned d true))
   | k =>
+      if k = .rawMap ∧ im.arr = .proxy ∧ im.src.compressed = false ∧ im.srcScaled = false then
+        some (rewrapped im (.view .hidden))
+      else
       match materialise fs im with
       | none => none
       | some (.copy d) => some (rewrapped im (.owned d im.arrFloat))
-      | some (.ref p dt be sc inst) =>
+      | some (.ref p dt be sc vk) =>
           if k = .copy then (readLayout fs p dt be sc).map (fun d => rewrapped im (.owned d im.arrFloat))
-          else some (rewrapped im (.view (inst && k == .mapInst)))
+          else if k = .mapInst then some (rewrapped im (.view vk))
+          else if k = .plainView then some (rewrapped im (.view (if vk = .hidden then .hidden else .plain)))
+          else some (rewrapped im (.view .hidden))
 
 /-- the re-wrap op: build the new image, then touch ITS data once (`np.array(new.dataobj)`): a stale proxy / view
     shows here (a `get_fdata()` cache that owns its memory does not go stale) -/
